@@ -107,7 +107,7 @@ end
 
 def lview : Value → Option (VList × Sep × Bool)
   | .list l s b => some (l, s, b)
-  | .arglist l _ _ => some (l, .comma, false)
+  | .arglist l _ s => some (l, s, false)
   | _ => none
 
 theorem veq_lview (sw : Sw) (a b : Value) (ha : ok sw a = true) (hb : ok sw b = true)
@@ -133,12 +133,12 @@ theorem veq_lview (sw : Sw) (a b : Value) (ha : ok sw a = true) (hb : ok sw b = 
       not_false_eq_true, exists_const]
     · simp only [ha.1.1, if_true, Bool.and_eq_true, decide_eq_true_eq, Option.some.injEq, Prod.mk.injEq]
       constructor
-      · rintro ⟨⟨h1, h2⟩, h3⟩; exact ⟨_, _, _, ⟨rfl, rfl, rfl⟩, h1.symm, h2.symm, h3⟩
-      · rintro ⟨l2, s2, b2, ⟨rfl, rfl, rfl⟩, h1, h2, h3⟩; exact ⟨⟨h1.symm, h2.symm⟩, h3⟩
-    · simp only [ha.1.1, if_true, Option.some.injEq, Prod.mk.injEq]
+      · rintro ⟨⟨h1, h2⟩, h3⟩; exact ⟨_, _, _, ⟨rfl, rfl, rfl⟩, h1, h2, h3⟩
+      · rintro ⟨l2, s2, b2, ⟨rfl, rfl, rfl⟩, h1, h2, h3⟩; exact ⟨⟨h1, h2⟩, h3⟩
+    · simp only [ha.1.1, if_true, Bool.and_eq_true, decide_eq_true_eq, Option.some.injEq, Prod.mk.injEq]
       constructor
-      · intro h; exact ⟨_, _, _, ⟨rfl, rfl, rfl⟩, rfl, rfl, h⟩
-      · rintro ⟨l2, s2, b2, ⟨rfl, rfl, rfl⟩, _, _, h3⟩; exact h3
+      · rintro ⟨h1, h3⟩; exact ⟨_, _, _, ⟨rfl, rfl, rfl⟩, h1, rfl, h3⟩
+      · rintro ⟨l2, s2, b2, ⟨rfl, rfl, rfl⟩, h1, _, h3⟩; exact ⟨h1, h3⟩
 
 theorem okL_of_lview (sw : Sw) (a : Value) (ha : ok sw a = true) (l : VList) (s : Sep) (b : Bool)
     (hv : lview a = some (l, s, b)) : okL sw l = true := by
@@ -196,7 +196,7 @@ mutual
         veqL_trans' sw hc l1 l2 l3 (by simpa [ok] using ha) (okL_of_lview sw b hb _ _ _ hv2)
           (okL_of_lview sw c hc' _ _ _ hv3) h12 h23⟩
     | .arglist l1 k1 sp1, b, c, ha, hb, hc', h1, h2 => by
-      have hv : lview (.arglist l1 k1 sp1) = some (l1, .comma, false) := rfl
+      have hv : lview (.arglist l1 k1 sp1) = some (l1, sp1, false) := rfl
       obtain ⟨l2, s2, b2, hv2, e1, e2, h12⟩ := (veq_lview sw _ b ha hb _ _ _ hv).1 h1
       obtain ⟨l3, s3, b3, hv3, e3, e4, h23⟩ := (veq_lview sw b c hb hc' _ _ _ hv2).1 h2
       exact (veq_lview sw _ c ha hc' _ _ _ hv).2 ⟨l3, s3, b3, hv3, e1.trans e3, e2.trans e4,
@@ -291,9 +291,9 @@ mutual
         veqL_symm' sw hc l1 l2 (by simpa [ok] using ha) (okL_of_lview sw b hb _ _ _ hv2)
           (by simpa [mapWf] using hw) h12⟩
     | .arglist l1 k1 sp1, b, ha, hb, hw, h1 => by
-      have hv : lview (.arglist l1 k1 sp1) = some (l1, .comma, false) := rfl
+      have hv : lview (.arglist l1 k1 sp1) = some (l1, sp1, false) := rfl
       obtain ⟨l2, s2, b2, hv2, e1, e2, h12⟩ := (veq_lview sw _ b ha hb _ _ _ hv).1 h1
-      exact (veq_lview sw b _ hb ha _ _ _ hv2).2 ⟨l1, .comma, false, hv, e1.symm, e2.symm,
+      exact (veq_lview sw b _ hb ha _ _ _ hv2).2 ⟨l1, sp1, false, hv, e1.symm, e2.symm,
         veqL_symm' sw hc l1 l2 (by simp only [ok, Bool.and_eq_true] at ha; exact ha.1.2)
           (okL_of_lview sw b hb _ _ _ hv2)
           (by simp only [mapWf, Bool.and_eq_true] at hw; exact hw.1) h12⟩
